@@ -513,7 +513,8 @@ def panic_sites(C, R, F, E, roles, cfg):
             p = fn['path']
             tr = fn.get('impl_trait') or ''
             cat = None
-            if p.startswith(('intrusive_double_linked_list::', 'intrusive_pairing_heap::', '<intrusive_')):
+            if p.startswith(('intrusive_double_linked_list::', 'intrusive_pairing_heap::', '<intrusive_')) or \
+                    (p.startswith('<') and (' as intrusive_double_linked_list::' in p or ' as intrusive_pairing_heap::' in p)):
                 cat = 'container-internal consistency assert (C20 checks the schema; preconditions are the unsafe contract)'
             elif p.lstrip('<').startswith('buffer::'):
                 cat = 'RingBuf contract ("Panics if ..."): push guarded by C09.R1, pop by the emptiness test (below)'
@@ -713,6 +714,30 @@ def _resolve_str(F, fn, op, depth=0):
     return None
 
 
+def _param_msgs(F, fn, idx, depth):
+    if depth > 3:
+        return ['?']
+    names = [fn['path']]
+    if fn.get('impl_trait') and fn.get('name'):
+        names.append('%s::%s' % (fn['impl_trait'], fn['name']))      # called through the trait's declaration
+    msgs = []
+    for g in F.raw['fns']:
+        for b2 in g['blocks']:
+            t2 = b2['term']
+            if t2['k'] == 'call' and 'fn' in t2['func'] and len(t2['args']) >= idx:
+                ci2 = t2['func']['fn']
+                rp = (ci2.get('resolved') or {}).get('path') or ci2['path']
+                if any(rp == n_ or rp.startswith(n_ + '::<') for n_ in names) or ci2['path'] in names:
+                    r2 = _resolve_str(F, g, t2['args'][idx - 1])
+                    if isinstance(r2, str):
+                        msgs.append(r2)
+                    elif isinstance(r2, tuple):
+                        msgs.extend(_param_msgs(F, g, r2[1], depth + 1))
+                    else:
+                        msgs.append('?')
+    return msgs
+
+
 def _expect_msg(fn, b, F=None):
     t = b['term']
     for a in t['args']:
@@ -720,17 +745,9 @@ def _expect_msg(fn, b, F=None):
         if isinstance(r, str):
             return r
         if isinstance(r, tuple) and F is not None and 'str' in (fn['locals'][r[1]]['ty'].get('str') or ''):
-            # the message is a parameter of a private helper: the messages its callers pass
-            msgs = []
-            for g in F.raw['fns']:
-                for b2 in g['blocks']:
-                    t2 = b2['term']
-                    if t2['k'] == 'call' and 'fn' in t2['func'] and len(t2['args']) >= r[1]:
-                        ci2 = t2['func']['fn']
-                        rp = (ci2.get('resolved') or {}).get('path') or ci2['path']
-                        if rp == fn['path'] or rp.startswith(fn['path'] + '::<'):
-                            r2 = _resolve_str(F, g, t2['args'][r[1] - 1])
-                            msgs.append(r2 if isinstance(r2, str) else '?')
+            # the message is a parameter of a private helper: the messages its callers pass (followed upwards through
+            # helpers that pass their own parameter on, and through a trait method's declaration to its callers)
+            msgs = _param_msgs(F, fn, r[1], 0)
             if msgs and all(m_ != '?' for m_ in msgs):
                 return ' | '.join(sorted(set(msgs)))
     return ''
